@@ -237,12 +237,12 @@ func frameRead(r *prng.R, s *out.Sink, tier string) {
 	for _, ty := range []uint8{0, 1, 2, 3} {
 		for _, l := range []int{0, 1, 65535, 65536, 1 << 20, lim - 1, lim, lim + 1, lim + 2, 1 << 25, 1<<32 - 1} {
 			for _, have := range []int{0, 31, 32, 33} {
-				if tier != "thorough" && l > 1<<20 && l <= lim {
-					// the full-size reads (20 MiB each) are left to the thorough tier
+				if tier != "thorough" && l > 1<<20 && l <= lim && have != 32 {
+					// most of the full-size reads (20 MiB each) are left to the thorough tier
 					continue
 				}
 				hv := have
-				if l <= lim && r.Intn(2) == 0 {
+				if l <= lim && (r.Intn(2) == 0 || l > 1<<20) {
 					hv = l + have // enough for the payload (and the topic, when have >= 32)
 				}
 				hdr := make([]byte, 5)
